@@ -156,7 +156,7 @@ func (e *Engine) runJobs(jobs []*Job, nworkers int) {
 	sch := newSched()
 	for _, j := range jobs {
 		st := e.base.clone()
-		fr := &Frame{fn: j.fn, blk: j.fn.Blocks[0], env: map[ssa.Value]Value{}, visits: map[int]int{}}
+		fr := &Frame{fn: j.fn, blk: j.fn.Blocks[0], env: map[ssa.Value]Value{}, visits: map[int]int{}, forks: map[ssa.Instruction]int{}}
 		for i, p := range j.fn.Params {
 			if i < len(j.Args) {
 				w, _ := intWidth(p.Type().Underlying().(*types.Basic))
@@ -750,7 +750,7 @@ func (w *Worker) gotoSucc(st *State, f *Frame, i int) {
 	f.visits[f.blk.Index]++
 	fuel := w.job.Opts.LoopFuel
 	if fuel == 0 {
-		fuel = 20000
+		fuel = 6000
 	}
 	if f.visits[f.blk.Index] > fuel {
 		w.exhausted(st, fmt.Sprintf("loop fuel %d exhausted at %s block %d", fuel, f.fn.String(), f.blk.Index))
@@ -786,6 +786,12 @@ func (w *Worker) step(st *State, f *Frame, ins ssa.Instruction) {
 		t, e := w.branch(st, c)
 		switch {
 		case t && e:
+			// a branch that stays undecided every time round a loop is an unbounded symbolic
+			// loop: stop unrolling it (inconclusive) instead of forking without end
+			f.forks[ins]++
+			if f.forks[ins] > 96 {
+				w.exhausted(st, fmt.Sprintf("symbolic loop unrolled 96 times at %s in %s", w.posOf(x.Cond.Pos()), f.fn.String()))
+			}
 			if gCfg.Verbose {
 				w.job.mu.Lock()
 				w.job.Reached["fork@"+f.fn.Name()+":"+w.posOf(x.Cond.Pos())]++
@@ -1798,7 +1804,7 @@ func (w *Worker) invoke(st *State, f *Frame, x ssa.Value, callee *ssa.Function, 
 	w.job.mu.Lock()
 	w.job.Funcs[callee.String()]++
 	w.job.mu.Unlock()
-	nf := &Frame{fn: callee, blk: callee.Blocks[0], env: make(map[ssa.Value]Value, 32), retTo: x, visits: map[int]int{}}
+	nf := &Frame{fn: callee, blk: callee.Blocks[0], env: make(map[ssa.Value]Value, 32), retTo: x, visits: map[int]int{}, forks: map[ssa.Instruction]int{}}
 	for i, p := range callee.Params {
 		nf.env[p] = args[i]
 	}
@@ -1967,7 +1973,7 @@ func (e *Engine) runInits(order []*ssa.Package) error {
 		if init == nil {
 			continue
 		}
-		st.frames = []*Frame{{fn: init, blk: init.Blocks[0], env: map[ssa.Value]Value{}, visits: map[int]int{}}}
+		st.frames = []*Frame{{fn: init, blk: init.Blocks[0], env: map[ssa.Value]Value{}, visits: map[int]int{}, forks: map[ssa.Instruction]int{}}}
 		w.runPath(st)
 		if len(job.Inconclusive) > 0 {
 			return fmt.Errorf("package initialiser %s: %v", p.Pkg.Path(), job.Inconclusive)
